@@ -69,16 +69,18 @@ func normalize(network Network, proto Protocol, req, resp *dns.Msg, maxMsgSize u
 		resp.Extra = append(resp.Extra, respOpt)
 	}
 
+	// In the case of encrypted protocols we should pad responses.  Do that
+	// before truncating, so that the padding is taken into account and the
+	// padded message still fits.
+	if proto.HasPaddingSupport() {
+		padAnswer(reqOpt, respOpt)
+	}
+
 	// Make sure that we don't send messages larger than the protocol supports.
 	truncate(resp, maxDNSSize(network, ednsUDPSize, maxMsgSize))
 
 	// Always compress the response.
 	resp.Compress = true
-
-	// In the case of encrypted protocols we should pad responses.
-	if proto.HasPaddingSupport() {
-		padAnswer(reqOpt, respOpt)
-	}
 }
 
 // truncate makes sure the response is not larger than the specified size.  If
@@ -151,12 +153,8 @@ func padAnswer(reqOpt, respOpt *dns.OPT) {
 	// #nosec G404 -- We don't need a real random for a simple padding
 	// randomization, pseudo-random is enough.
 	//
-	// Note, that we don't check for whether reqOpt.UDPSize() here is smaller
-	// than resp.Len() + padLen so in theory the padded response may be larger
-	// than 64kB.  This is an acceptable risk considering the savings on
-	// avoiding calling resp.Len().
-	//
-	// TODO(ameshkov): Return this check if we optimize resp.Len().
+	// Note that the length of the response isn't checked here.  The caller
+	// truncates the response after the padding has been added.
 	padLen := rand.Intn(responsePaddingMaxSize-1) + 1
 
 	paddingOpt.Padding = respPadBuf[:padLen:padLen]
